@@ -5,6 +5,7 @@ Model: `coreResponse` (first block, caching) and `coreRequest`/`handleBlock2`
 -/
 import CoapLite.Lemmas.BlockTransfer
 import CoapLite.Lemmas.Download
+import CoapLite.Lemmas.BlockFitsRange
 import CoapLite.Lemmas.BlockSession
 import CoapLite.Lemmas.Shape.Block
 import CoapLite.Lemmas.Shape.BlockValue
@@ -58,6 +59,15 @@ theorem first_block (M : Nat) (req : Request) (st : BlockState) (resp : Packet) 
       | (req', .ok true) => (req', { st with cachedResponse := some resp }, .ok true)
       | (req', r) => (req', st, r) :=
   coreResponse_fragment M req st resp size rb2 hr hno hsz hn
+
+/-- "every message-size budget that leaves room for a block": without a size preference from the client
+the size negotiation for the application's reply NEVER fails once the budget leaves any room – the
+reply is either left as it is or gets block 0 with `more` set and a size of at most 1024 bytes (SZX 6),
+also under budgets far above one block (D20: budgets ≥ overhead + 4108 used to fail with 5.00) -/
+theorem fragmentation_never_fails (ms tp M : Nat) (hB : 0 < blockBudget ms tp M) :
+    negotiate none ms tp M = .ok none ∨
+    ∃ b, negotiate none ms tp M = .ok (some b) ∧ b.num = 0 ∧ b.more = true ∧ b.szx ≤ 6 :=
+  negotiate_none_total ms tp M hB
 
 /-- the block the handler negotiates for the first reply is block 0 when the
 client named no block or block 0 -/
